@@ -169,6 +169,54 @@ def probe_cells(rng, f, m):
     return {"inside": encs(inside), "outside": encs(outside), "nan": encs(nanf), "unseen": encs(unseen)}
 
 
+DEV_KINDS = ["rare_extreme", "rare_extreme", "rare_any", "missing", "small", "bootstrap"]
+
+
+def gen_dev_rows(rng, feat, y, min_freq, kind):
+    """row indices (into the training frame) of a dev sample whose per-modality frequencies differ
+    from train.  Modalities = categories of the first feature, or equal-count value segments of a
+    quantitative one.  rare_*: every other modality keeps all its rows (same target rates, hence
+    the same ranking as on train) and one modality keeps 1..k rows, fewer than min_freq/2 of the
+    dev sample (rare_extreme: the modality with the highest / lowest target rate, keeping rows that
+    leave it highest / lowest); missing: one modality is absent from dev; small: a random 25-50 %
+    subset; bootstrap: n rows drawn with replacement."""
+    col = decs(feat["values"])
+    n = len(col)
+    idx = list(range(n))
+    if kind == "small":
+        return sorted(rng.sample(idx, max(8, int(n * rng.uniform(0.25, 0.5)))))
+    if kind == "bootstrap":
+        return sorted(rng.choices(idx, k=n))
+    fin = [i for i in idx if not C.is_nan(col[i])]
+    groups = {}
+    if feat["kind"] == "quant":
+        srt = sorted(fin, key=lambda i: col[i])
+        m = rng.randint(3, 6)
+        for r, i in enumerate(srt):
+            groups.setdefault(min(m - 1, r * m // max(1, len(srt))), []).append(i)
+    else:
+        for i in fin:
+            groups.setdefault(repr(col[i]), []).append(i)
+    keys = sorted(groups, key=str)
+    if len(keys) < 2:
+        return sorted(rng.sample(idx, max(8, n // 2)))
+    rate = {k: sum(y[i] for i in groups[k]) / len(groups[k]) for k in keys}
+    if kind == "rare_extreme":
+        top = rng.random() < 0.5
+        g = max(keys, key=lambda k: rate[k]) if top else min(keys, key=lambda k: rate[k])
+        cand = sorted(groups[g], key=lambda i: y[i], reverse=top)
+    else:
+        g = rng.choice(keys)
+        cand = list(groups[g])
+        rng.shuffle(cand)
+    rest = [i for i in idx if i not in set(groups[g])]
+    if kind == "missing":
+        return rest
+    kmax = max(1, int(0.45 * min_freq * (len(rest) + 1)) - 1)       # k / n_dev < min_freq / 2
+    keep = cand[:rng.randint(1, max(1, min(kmax, 3)))]
+    return sorted(rest + keep)
+
+
 def gen_case(rng, cls=None, force=None):
     force = force or {}
     cls = cls or rng.choice(CLASSES)
@@ -209,6 +257,10 @@ def gen_case(rng, cls=None, force=None):
         params["unknown"] = rng.choice(["raise", "drop"])
     case = {"valid": True, "cls": cls, "params": params, "features": feats,
             "y": gen_target(rng, decs(feats[0]["values"]), feats[0]["kind"], n, mode)}
+    if cls in CARVERS and (force.get("dev") or ("dev" not in force and rng.random() < 0.6)):
+        # carver fitted WITH a dev sample (X_dev, y_dev): rows of the training frame
+        kind = force.get("dev") if isinstance(force.get("dev"), str) else rng.choice(DEV_KINDS)
+        case["dev"] = {"kind": kind, "rows": gen_dev_rows(rng, feats[0], case["y"], params["min_freq"], kind)}
     if "dropna" in force:
         params["dropna"] = force["dropna"]
     if cls not in CARVERS and (force.get("edit") or rng.random() < 0.35):
@@ -246,12 +298,16 @@ def hand_case(feats, valid=False, odt="str", dropna=True):
 # ------------------------------------------------------------------------------------------------
 # running the implementation
 # ------------------------------------------------------------------------------------------------
-def build_frame(feats, columns=None):
+def build_frame(feats, columns=None, rows=None):
+    """training frame (columns None), a subset of its rows (rows = indices, same dtypes) or a
+    probe frame (columns = {name: encoded cells})"""
     import pandas as pd
 
     cols = {}
     for f in feats:
         vals = decs(columns[f["name"]]) if columns is not None else decs(f["values"])
+        if rows is not None:
+            vals = [vals[i] for i in rows]
         if f["kind"] == "quant":
             if f["dtype"] == "int64" and not any(C.is_nan(v) for v in vals) and columns is None:
                 cols[f["name"]] = pd.Series(np.array([int(v) for v in vals], dtype=np.int64))
@@ -319,6 +375,9 @@ def fit_object(case):
         raise ValueError(cls)
     if cls == "ChainedDiscretizer":
         obj.fit(X)
+    elif case.get("dev"):
+        rows = case["dev"]["rows"]
+        obj.fit(X, y, X_dev=build_frame(feats, rows=rows), y_dev=pd.Series([case["y"][i] for i in rows]))
     else:
         obj.fit(X, y)
     if case.get("edit"):
@@ -473,6 +532,37 @@ def attrs_differ(o, r):
     return None
 
 
+def struct_diff(a, b, path="to_json()"):
+    """first difference between the dict returned by to_json() and json.loads(json.dumps(it)):
+    dict keys must be strings, tuples count as lists, numbers by value (NaN equals NaN), booleans
+    and None by identity of type"""
+    if isinstance(a, dict):
+        if not isinstance(b, dict):
+            return f"{path}: dict vs {type(b).__name__}"
+        if any(not isinstance(k, str) for k in a):
+            return f"{path}: non-string key {[k for k in a if not isinstance(k, str)][:1]!r}"
+        if list(a) != list(b):
+            return f"{path}: keys {list(a)[:6]} vs {list(b)[:6]}"
+        for k in a:
+            d = struct_diff(a[k], b[k], f"{path}[{k!r}]")
+            if d:
+                return d
+        return None
+    if isinstance(a, (list, tuple)):
+        if not isinstance(b, list) or len(a) != len(b):
+            return f"{path}: sequence of {len(a)} vs {type(b).__name__}"
+        for i, (x, y) in enumerate(zip(a, b)):
+            d = struct_diff(x, y, f"{path}[{i}]")
+            if d:
+                return d
+        return None
+    if a is None or b is None or isinstance(a, (bool, np.bool_)) or isinstance(b, bool):
+        same = (a is None and b is None) or (isinstance(a, (bool, np.bool_)) and isinstance(b, bool)
+                                             and bool(a) == b)
+        return None if same else f"{path}: {a!r} vs {b!r}"
+    return None if veq(a, b) else f"{path}: {a!r} vs {b!r}"
+
+
 def observe(case, obj):
     from AutoCarver.carvers import load_carver
     from AutoCarver.carvers.base_carver import BaseCarver
@@ -483,7 +573,8 @@ def observe(case, obj):
     out = {"carver": carver, "klass": type(obj).__name__, "names": names, "serialisable": True,
            "text_names": [], "load": "not-run", "reload_names": [], "text2_names": [],
            "history1": False, "history2": False, "meta_diff": [], "behaviour_diff": [],
-           "vo_text_same": True, "vo_json_same": True, "content_in_list_order": True}
+           "vo_text_same": True, "vo_json_same": True, "content_in_list_order": True,
+           "loads_diff": None, "dev_rejects": 0}
     feats = []
     for n in names:
         g = obj.values_orders[n]
@@ -504,6 +595,10 @@ def observe(case, obj):
         return out
     j1 = json.loads(txt)
     out["history1"] = "_history" in j1
+    out["loads_diff"] = struct_diff(j, j1)        # json.loads gives back an equal structure
+    hist = getattr(obj, "_history", None) or {}
+    msgs = [str(m) for recs in hist.values() for rec in recs for m in (rec.get("viability_message") or [])]
+    out["dev_rejects"] = sum(1 for m in msgs if "X_dev" in m)
 
     def split(text, key):
         try:
@@ -674,6 +769,8 @@ def problems_of(case, out):
         return []
     if not out["serialisable"]:
         return [("not_serialisable", out.get("dump_error", ""))]
+    if out.get("loads_diff"):
+        return [("loads_not_equal", out["loads_diff"])]
     if out["load"] != "ok":
         return [("load_raised", out.get("load_error", out["load"]))]
     pr = []
@@ -742,6 +839,30 @@ def canonical_edit_case():
     return c
 
 
+def dev_rare_case(cls="BinaryCarver"):
+    """carver fitted with a dev sample: categories A/B/C, 100 rows each on train (target rates
+    0.1 / 0.5 / 0.9), dev = 100 / 100 / 5 rows: [A][B][C] is viable on train, has the same ranking
+    on dev, but C is 2.4 % of dev < min_freq / 2: a combination is rejected on the dev frequency"""
+    import random
+
+    rng = random.Random(68)
+    col, y = [], []
+    for cat, rate in (("A", 0.1), ("B", 0.5), ("C", 0.9)):
+        n_pos = int(round(100 * rate))
+        col += [cat] * 100
+        y += [1] * n_pos + [0] * (100 - n_pos)
+    if cls == "ContinuousCarver":
+        y = [float(v * 10 + (i % 3)) for i, v in enumerate(y)]
+    f = {"name": "c0", "kind": "cat", "flavour": "letters", "dtype": "object", "values": encs(col)}
+    params = {"min_freq": 0.1, "output_dtype": "str", "dropna": True, "max_n_mod": 3}
+    if cls != "ContinuousCarver":
+        params["sort_by"] = "cramerv"
+    pc = probe_cells(rng, f, 6)
+    return {"valid": True, "cls": cls, "params": params, "features": [f], "y": y,
+            "dev": {"kind": "rare_extreme", "rows": list(range(200)) + list(range(200, 205))},
+            "probes": {k: {"c0": pc[k]} for k in pc}}
+
+
 class C06(Prop):
     pid = "C06"
     theorems = ["C06_roundtrip_feature", "C06_roundtrip_state", "C06_roundtrip_behaviour",
@@ -771,7 +892,8 @@ class C06(Prop):
         import random
 
         inf = math.inf
-        cs = [canonical_o6_case(), canonical_sentinel_case(), canonical_edit_case()]
+        cs = [canonical_o6_case(), canonical_sentinel_case(), canonical_edit_case(),
+              dev_rare_case("BinaryCarver"), dev_rare_case("ContinuousCarver"), dev_rare_case("MulticlassCarver")]
         rng = random.Random(606)
         cs.append(gen_case(rng, "QualitativeDiscretizer", {"n": 80, "nfeat": 1, "kind": "cat",
                                                            "cflavour": "sentinel"}))
@@ -797,7 +919,15 @@ class C06(Prop):
             cls = CLASSES[i % len(CLASSES)] if i < 4 * len(CLASSES) else None
             force = {}
             r = rng.random()
-            if i % 10 == 9:
+            if i % 10 == 4:
+                # family: carvers fitted with a dev sample on which one modality (highest / lowest
+                # target rate) is rarer than min_freq / 2 while the ranking is the one of train
+                cls = rng.choice(list(CARVERS))
+                force = {"dev": "rare_extreme", "nfeat": 1, "n": rng.choice([120, 200, 300]),
+                         "kind": rng.choice(["cat", "cat", "ord", "quant"])}
+                if force["kind"] == "cat":
+                    force["cflavour"] = rng.choice(["letters", "ints", "mixed", "numstr"])
+            elif i % 10 == 9:
                 # family: objects with dropna=False whose missing values are manually grouped before
                 # dumping (features_dropna then differs from the global dropna)
                 cls = rng.choice(["BinaryCarver", "ContinuousCarver", "MulticlassCarver", "Discretizer",
@@ -847,10 +977,11 @@ class C06(Prop):
             return None
         kinds = ",".join(sorted(f"{f['kind']}:{f['flavour']}" for f in case["features"]))
         p = case["params"]
+        dv = case.get("dev", {}).get("kind", "-") + ("+rej" if out.get("dev_rejects") else "")
         eo = case.get("edit_op", {})
         cfg = (f"{p.get('output_dtype')}/{p.get('dropna')}/{'edit' if case.get('edit') else '-'}/"
                f"{eo.get('mode', '-')}{'-nan' if eo.get('nan') else ''}/"
-               f"fd={out.get('features_dropna_differs_from_dropna')}")
+               f"fd={out.get('features_dropna_differs_from_dropna')}/dev={dv}")
         pr = ",".join(sorted({k for k, _ in problems_of(case, out)})) or "holds"
         tk = ",".join(f"{k}={v}" for k, v in sorted(out.get("transform_kinds", {}).items()))
         return f"{case['cls']}|{kinds}|{cfg}|{pr}|{tk}|{out.get('content_in_list_order')}"
@@ -911,6 +1042,8 @@ class C06(Prop):
                 break
             cand = json.loads(json.dumps(cur))
             cand["y"] = cand["y"][:n // 2]
+            if cand.get("dev"):
+                cand["dev"]["rows"] = [i for i in cand["dev"]["rows"] if i < n // 2]
             for f in cand["features"]:
                 f["values"] = f["values"][:n // 2]
             o = fails_same(cand)
@@ -949,6 +1082,11 @@ class C06(Prop):
                 h["features_order_differs_in_second_dump"] += 1
             if not o.get("content_in_list_order", True):
                 h["content_dict_not_in_list_order"] += 1
+            if c.get("dev"):
+                d = h.setdefault("carvers_fitted_with_dev_sample", {})
+                inc(d, c["dev"]["kind"])
+                if o.get("dev_rejects"):
+                    inc(d, "cases_with_a_combination_rejected_on_dev")
             if o.get("features_dropna_differs_from_dropna"):
                 h["features_dropna_differs_from_dropna"] = h.get("features_dropna_differs_from_dropna", 0) + 1
             if c["cls"] == "MulticlassCarver":
